@@ -33,6 +33,20 @@ func init() {
 		conn := s.GoroutineConn()
 		s.Park("autolock", s.ActorName(conn), conn, "", try)
 	}
+	verifpt.SpawnHook = func(site int) int {
+		s := Current()
+		if s == nil || s.InTeardown() {
+			return 0
+		}
+		return s.spawnTicket(site)
+	}
+	verifpt.EnterHook = func(ticket int) {
+		s := Current()
+		if s == nil {
+			return
+		}
+		s.enterSpawned(ticket)
+	}
 	if os.Getenv("VERIF_FINE_DEBUG") != "" {
 		var mu sync.Mutex
 		seen := map[string]bool{}
